@@ -2,6 +2,7 @@ package main
 
 import (
 	"fmt"
+	"hash/crc32"
 	"math/rand"
 	"strconv"
 	"strings"
@@ -156,20 +157,32 @@ func (ctrlEncodeStream) Oracle(c Case, impl string) (bool, string, string) {
 	}
 	ctl := parseCtlDesc(strings.Fields(c.Line)[1:])
 	enc := unhx(impl)
-	// request direction: inside a bind request, through gldap's own read path
-	frame := append([]byte{}, Seq(Int(2, 5), C(1, 0, Int(2, 3), Oct("cn=x"), P(2, 0, []byte("pw")))).Ser()...)
-	root := Seq(Int(2, 5), C(1, 0, Int(2, 3), Oct("cn=x"), P(2, 0, []byte("pw"))), &N{Cls: 2, Tag: 0, Cons: true, Kids: []*N{{Cls: 0, Tag: 4, Content: nil}}})
-	_ = frame
-	// splice the encoded control in as raw bytes: build [0] { enc }
+	// request direction: attached to a request of every operation that carries controls (one per case, chosen by
+	// the case), through gldap's own read path
+	reqs := []Req{
+		{Kind: "bind", ID: 5, DN: "cn=x", Pass: "pw"},
+		{Kind: "search", ID: 5, DN: "dc=x", Scope: 2, Filter: "(cn=x)"},
+		{Kind: "search", ID: 5, DN: "dc=x", Scope: 1, Filter: "(cn=x)", Attrs: []string{"cn", "mail"}},
+		{Kind: "modify", ID: 5, DN: "cn=x", Changes: []Chg{{Op: 1, Type: "mail"}}},
+		{Kind: "add", ID: 5, DN: "cn=x", AddAttrs: []Att{{Type: "cn", Vals: []string{"x"}}}},
+		{Kind: "delete", ID: 5, DN: "cn=x"},
+	}
+	rq := reqs[int(crc32.ChecksumIEEE([]byte(c.Line)))%len(reqs)]
+	base, err := rq.Node()
+	if err != nil {
+		return false, "cannot build request", c.Kind + "/harness"
+	}
+	// splice the encoded control in as raw bytes: [0] { enc }
 	ctx := append(encIdent(2, true, 0), encLength(len(enc), 0)...)
 	ctx = append(ctx, enc...)
-	body := append(Int(2, 5).Ser(), C(1, 0, Int(2, 3), Oct("cn=x"), P(2, 0, []byte("pw"))).Ser()...)
+	body := append(base.Kids[0].Ser(), base.Kids[1].Ser()...)
 	body = append(body, ctx...)
 	full := append(encIdent(0, true, 16), encLength(len(body), 0)...)
 	full = append(full, body...)
-	_ = root
 	got := safely(func() string { return decodeFrame(full) })
-	want := "ok bind id=5 user=" + hx([]byte("cn=x")) + " pass=" + hx([]byte("pw")) + " ctrls=[" + c.Expect + "]"
+	rq.Ctls = []Ctl{ctl}
+	rq.Ctls[0].ExplicitCrit = false
+	want := strings.Replace(rq.Expected("(cn=x)"), "ctrls=["+ctl.Render()+"]", "ctrls=["+c.Expect+"]", 1)
 	if got != want {
 		return false, "gldap's request decoder recovers " + got + " want " + want, c.Kind + "/request-direction"
 	}
